@@ -162,6 +162,7 @@ type frsEngine struct {
 	fieldMemo   map[*types.Var]*frsSet
 	fieldBusy   map[*types.Var]bool
 	wholeStored map[*types.Var]bool
+	sealedMemo  map[string][]*ssa.Function
 }
 
 // frsNewEngine: bodies of the module packages are read; extra names dependency packages (by types
@@ -714,10 +715,26 @@ func (w *frsWalk) callResult(call *ssa.Call, idx int) {
 		return
 	}
 	callee := com.StaticCallee()
+	if com.IsInvoke() {
+		if impls := w.e.sealedImpls(com.Value.Type(), com.Method); len(impls) > 0 {
+			// a sealed interface of the module: the result is what one of its (all known) implementations returns
+			args := append([]ssa.Value{com.Value}, com.Args...)
+			for _, fn := range impls {
+				w.mapRet(fn, idx, args, call)
+			}
+			return
+		}
+	}
 	if !frsReadable(callee) {
 		w.foreign("the result of "+frsCalleeName(com), call.Pos())
 		return
 	}
+	w.mapRet(callee, idx, com.Args, call)
+}
+
+// mapRet: the leaves of result idx of callee, translated to the caller (args: the actual arguments,
+// receiver first).
+func (w *frsWalk) mapRet(callee *ssa.Function, idx int, args []ssa.Value, call *ssa.Call) {
 	for _, l := range w.e.Ret(callee, idx).Leaves() {
 		switch l.kind {
 		case frsFresh:
@@ -730,14 +747,14 @@ func (w *frsWalk) callResult(call *ssa.Call, idx int) {
 			w.out.add(l)
 		case frsParam, frsParamDeep:
 			i := frsParamIndex(callee, l.par)
-			if i < 0 || i >= len(com.Args) {
+			if i < 0 || i >= len(args) {
 				w.foreign("the result of "+maFnName(callee), call.Pos())
 				continue
 			}
 			if l.kind == frsParam {
-				w.val(com.Args[i])
+				w.val(args[i])
 			} else {
-				w.nonLocalContents(com.Args[i], "memory reachable from argument "+frsDescribe(com.Args[i])+" of "+maFnName(callee))
+				w.nonLocalContents(args[i], "memory reachable from argument "+frsDescribe(args[i])+" of "+maFnName(callee))
 			}
 		default:
 			w.out.add(l)
@@ -1295,4 +1312,75 @@ func (e *frsEngine) ProtectedSinks(prim func(f *ssa.Function, in ssa.Instruction
 		}
 	}
 	return all, W
+}
+
+// sealedImpls: the implementations of method m of interface type t when t is *sealed*: a named interface
+// declared in a module package with at least one unexported method, so that only types of the loaded
+// module can implement it. Returns nil when t is not sealed, when an implementation has no readable
+// body, or when there are more than 24 (the summaries would cost more than they decide).
+func (e *frsEngine) sealedImpls(t types.Type, m *types.Func) []*ssa.Function {
+	n, ok := types.Unalias(t).(*types.Named)
+	if !ok || n.Obj().Pkg() == nil || !e.ix.inMod[n.Obj().Pkg()] || m == nil {
+		return nil
+	}
+	it, ok := n.Underlying().(*types.Interface)
+	if !ok {
+		return nil
+	}
+	key := n.Obj().Pkg().Path() + "." + n.Obj().Name() + "." + m.Name()
+	if r, ok := e.sealedMemo[key]; ok {
+		return r
+	}
+	if e.sealedMemo == nil {
+		e.sealedMemo = map[string][]*ssa.Function{}
+	}
+	e.sealedMemo[key] = nil
+	sealed := false
+	for i := 0; i < it.NumMethods(); i++ {
+		if !it.Method(i).Exported() {
+			sealed = true
+		}
+	}
+	if !sealed {
+		return nil
+	}
+	var out []*ssa.Function
+	for _, pk := range e.p.Module {
+		if pk.Types == nil {
+			continue
+		}
+		sc := pk.Types.Scope()
+		for _, name := range sc.Names() {
+			tn, ok := sc.Lookup(name).(*types.TypeName)
+			if !ok || tn.IsAlias() {
+				continue
+			}
+			if _, isI := tn.Type().Underlying().(*types.Interface); isI {
+				continue
+			}
+			if nt, ok := tn.Type().(*types.Named); ok && nt.TypeParams().Len() > 0 {
+				continue
+			}
+			for _, cand := range []types.Type{tn.Type(), types.NewPointer(tn.Type())} {
+				if !types.Implements(cand, it) {
+					continue
+				}
+				sel := e.ix.prog.MethodSets.MethodSet(cand).Lookup(m.Pkg(), m.Name())
+				if sel == nil {
+					return nil
+				}
+				fn := e.ix.prog.MethodValue(sel)
+				if !frsReadable(fn) {
+					return nil
+				}
+				out = append(out, fn)
+				break
+			}
+		}
+	}
+	if len(out) > 24 {
+		return nil
+	}
+	e.sealedMemo[key] = out
+	return out
 }
